@@ -5,6 +5,7 @@ import (
 	"time"
 
 	"storj.io/drpc"
+	"storj.io/drpc/internal/verifrt/hx"
 	vrt "storj.io/drpc/internal/verifrt"
 )
 
@@ -419,6 +420,7 @@ func VerifH_PoolConnWrappers() {
 	h1 := p.Get(vhBgCtx{}, 7, dial)
 	h2 := p.Get(vhBgCtx{}, 7, dial)
 	second := vrt.Choice("second", 2)
+	callerCtx := hx.NewCtx()
 	d1, d2 := false, false
 	var st drpc.Stream
 	go func() { _ = h1.Invoke(vhBgCtx{}, "a", nil, nil, nil); d1 = true }()
@@ -426,7 +428,7 @@ func VerifH_PoolConnWrappers() {
 		if second == 0 {
 			_ = h2.Invoke(vhBgCtx{}, "b", nil, nil, nil)
 		} else {
-			st, _ = h2.NewStream(vhBgCtx{}, "s", nil)
+			st, _ = h2.NewStream(callerCtx, "s", nil)
 		}
 		d2 = true
 	}()
@@ -458,6 +460,36 @@ func VerifH_PoolConnWrappers() {
 		default:
 		}
 		vrt.Assert(!wrapDone, "the stream wrapper's context is not done while the stream is alive")
+		if vrt.Bool("callerCancels") {
+			// the caller's context is cancelled; the underlying stream (whose context is its
+			// own, as with drpcstream) is still being torn down
+			callerCtx.Cancel(context.Canceled)
+			vrt.Quiesce()
+			for ent := p.order.head; ent != nil; ent = ent.global.next {
+				vrt.Assert(ent.val != sc, "a connection whose stream is still alive is not cached, also after the caller's context was cancelled")
+			}
+			vrt.Assert(!hx.IsClosedCh(st.Context().Done()), "the stream wrapper's Done does not fire before the underlying stream has ended")
+			before := dials
+			h3 := p.Get(vhBgCtx{}, 7, dial)
+			st3, _ := h3.NewStream(vhBgCtx{}, "t", nil)
+			for _, c := range conns {
+				vrt.Assert(c.maxInUse <= 1, "a connection carrying a live stream is not handed to another caller")
+			}
+			if st3 != nil {
+				// end that stream again so that the rest of the scenario is as before
+				for _, c := range conns {
+					for _, x := range c.streams {
+						if x != sc.streams[0] && !hx.IsClosedCh(x.ctx.done) {
+							close(x.ctx.done)
+							c.inUse--
+						}
+					}
+				}
+				vrt.Quiesce()
+			}
+			_ = before
+			vrt.Cover("poolconn-caller-cancel")
+		}
 		close(sc.streams[0].ctx.done) // the stream ends
 		sc.inUse--
 		vrt.Quiesce()
